@@ -87,6 +87,12 @@ def mono(t):
 for n,(k,g,items,a) in list(types.items()):
     types[n]=(k,g,[(f,mono(t) if t else None) for f,t in items],a)
 
+# the schema, for tools that walk serde JSON trees by type (tools/props/c05.py)
+import json as _json
+_schema={n:{'kind':k,'items':[[f,t] for f,t in items]} for n,(k,g,items,a) in types.items()}
+os.makedirs(os.path.join(os.path.dirname(os.path.abspath(__file__)),'..','work'),exist_ok=True)
+open(os.path.join(os.path.dirname(os.path.abspath(__file__)),'..','work','ast_schema.json'),'w').write(_json.dumps(_schema))
+
 def lean_type(t):
     n,args=t[0],t[1]
     if n in('usize',): return 'Nat'
